@@ -79,9 +79,14 @@ def elapsed_proxy():
     f1 = sys._getframe(1)
     name = f1.f_code.co_name
     cid = THREAD_CID.get(threading.get_ident())
-    if name == '_seconds' and getattr(TL, 'sched_cid', None) is not None:     # (thread idents are reused: no cid test)
-        # _MainTimeThread._seconds inside clock.sched(delta, ...) called by a non-clock thread
-        LOG.append((TL.sched_cid, 'base', fr(t)))
+    sc_ = getattr(TL, 'sched', None)
+    if name == '_seconds' and sc_ is not None and not TL.based:     # (thread idents are reused: no cid test)
+        # _MainTimeThread._seconds inside clock.sched(delta, ...) called by a non-clock thread: the time base of
+        # the call.  The library reads it while it holds the main lock (current_tt is process-global).
+        TL.based = True
+        if not owned():
+            PROBLEMS.append('sched(delta) read its time base (main.current_tt._seconds) WITHOUT holding the main lock')
+        LOG.append((sc_[0], 'sched_call', fr(t), sc_[1]))
     if name == '_run' and cid is not None:
         LOG.append((cid, 'time', fr(t)))
     elif name == 'elapsed_beats' and cid is not None and f1.f_back is not None \
@@ -157,6 +162,10 @@ class QProxy:
             PROBLEMS.append('add without the main lock')
         tid = task_id(task)
         wrap_awake(task, tid)
+        sc_ = getattr(TL, 'sched', None)
+        if sc_ is not None and sc_[0] == self.cid and not TL.based:
+            # a sched(delta) of a non-clock thread reached the queue without having read the main thread's time
+            LOG.append((self.cid, 'sched_nobase', sc_[1]))
         self.q.add(prio, task)
         if not math.isfinite(prio):
             LOG.append((self.cid, 'add_nonfinite', repr(prio), tid))
@@ -415,8 +424,11 @@ class Run:
         if spec.get('routine') is not None:
             # a real Routine: yields `routine` numeric deltas, then ENDS (its last awake raises StopStream)
             ny, dl = spec['routine'], float(Fraction(*spec.get('yield', [1, 64])))
+            slow = spec.get('slow', 0) / 1000.0
 
             def gen():
+                if slow:
+                    time.sleep(slow)         # slow work inside the first wake-up (the main lock stays held)
                 for _ in range(ny):
                     run.count[tid] = run.count.get(tid, 0) + 1
                     run.awakes.append([tid, real_now(), fr(main.current_tt._seconds),
@@ -473,16 +485,13 @@ class Run:
                 t0 = real_now()
                 outside = who.startswith('client') or who == 'main'
                 if PROXIES and outside and self.sc['clock'] in ('sys', 'tempo'):
-                    # the whole call under the (re-entrant) main lock, so that the announcement, the time
-                    # base read by sched and the add are contiguous in the log
-                    with main._main_lock:
-                        LOG.append((self.cid, 'sched_req', [op[2], op[3]]))
-                        TL.sched_cid = self.cid
-                        try:
-                            c.sched(float(Fraction(op[2], op[3])), self.tasks[op[1]])
-                        finally:
-                            TL.sched_cid = None
-                            LOG.append((self.cid, 'sched_ret'))
+                    # announce the call to the proxies (thread-local): the time base read inside sched is logged,
+                    # under the library's own lock, as one event (sched_call base delta) just before the add
+                    TL.sched, TL.based = (self.cid, [op[2], op[3]]), False
+                    try:
+                        c.sched(float(Fraction(op[2], op[3])), self.tasks[op[1]])
+                    finally:
+                        TL.sched = None
                 else:
                     c.sched(float(Fraction(op[2], op[3])), self.tasks[op[1]])
                 self.scheds.append([who, op[1], 'delta', [op[2], op[3]], t0, real_now()])
@@ -491,6 +500,10 @@ class Run:
                 when = float(self.base + Fraction(op[2], op[3]))
                 c.sched_abs(when, self.tasks[op[1]])
                 self.scheds.append([who, op[1], 'abs', fr(when), t0, real_now()])
+            elif k == 'asched':
+                t0 = real_now()
+                self.aux.sched(float(Fraction(op[2], op[3])), self.tasks[op[1]])
+                self.scheds.append([who, op[1], 'adelta', [op[2], op[3]], t0, real_now()])
             elif k == 'xsched':
                 t0 = real_now()
                 clk.SystemClock.sched(float(Fraction(op[2], op[3])), self.tasks[op[1]])
